@@ -26,7 +26,7 @@ theorem document_main (env : NsEnv) (henv : envOK env = true) (cfg : Cfg) (hcfg 
   have hind : cfg.indent = none := by
     simp only [plainCfg, Bool.and_eq_true, Option.isNone_iff_eq_none] at hcfg
     exact hcfg.1.1
-  have hrun := handlerRun_native_document env cfg hind m q attrs kids cs hcs
+  have hrun := handlerRun_native_document env cfg hind m q attrs kids cs (userMapOK_valid env m hm) hcs
   simp only [contentOK, Bool.and_eq_true] at hok
   obtain ⟨⟨⟨hname, hattrs⟩, hokk⟩, _⟩ := hok
   unfold docCalls at hcs
